@@ -110,7 +110,13 @@ def oracleC01 (o : Opts) (a b : Json) (implEq : Bool) (out : Outcome Json) : Str
   let bad (why : String) : String :=
     if keyTwinActive o (subterms a ++ subterms b) then "kf KF-C01-keytwin " ++ why
     else if identPerm o (subterms a ++ subterms b) then "kf KF-C01-identperm " ++ why
-    else if !(aliasFree o (hashedNodes a ++ hashedNodes b)) then "kf KF-C04-alias " ++ why
+    else if !(aliasFree o (hashedNodes a ++ hashedNodes b)) then
+      -- (a hash alias explains a failure only when the model of the unchanged code fails in the same way)
+      let asModelled : Bool := match out, patchAll true a (diffM o a b) with
+        | .ok r, .ok r' => specEq (untag r) (untag r')
+        | .err, .err => true
+        | _, _ => false
+      if asModelled then "kf KF-C04-alias " ++ why else "fail " ++ why ++ " (and the model of the unchanged code behaves differently)"
     else "fail " ++ why
   match out with
   | .ok r =>
@@ -145,9 +151,13 @@ def oracleC04 (o : Opts) (a b : Json) (implEq implEqRev implRefl : Bool) : Strin
     else if setMode o && (hasNegZero a || hasNegZero b) && equivB o a b && !implEq then "kf KF-C04-negzero " ++ why
     else if !(aliasFree o (hashedNodes a ++ hashedNodes b)) then "kf KF-C04-alias " ++ why
     else "fail " ++ why
-  if implEq != spec then cls s!"Equals={implEq} but the advertised equivalence says {spec}"
-  else if implEq != implEqRev then cls "Equals is not symmetric on this pair"
-  else if !implRefl then cls "Equals(a,a) is false"
+  -- a deviation is an instance of a KNOWN finding only when the model of the unchanged code deviates in the same way
+  let cls' (why : String) : String :=
+    if implEq != equals o a b || implEqRev != equals o b a || implRefl != equals o a a then "fail " ++ why ++ " (and the model of the unchanged code answers differently)"
+    else cls why
+  if implEq != spec then cls' s!"Equals={implEq} but the advertised equivalence says {spec}"
+  else if implEq != implEqRev then cls' "Equals is not symmetric on this pair"
+  else if !implRefl then cls' "Equals(a,a) is false"
   else "ok"
 
 /-- C05: empty diff ⇔ Equals -/
@@ -155,7 +165,9 @@ def oracleC05 (o : Opts) (a b : Json) (diffEmpty implEq : Bool) : String :=
   if diffEmpty == implEq then "ok"
   else
     let why := s!"diff empty={diffEmpty} but Equals={implEq}"
-    if keyTwin o (subterms a ++ subterms b) then "kf KF-C01-keytwin " ++ why
+    -- (a known finding only when the model of the unchanged code deviates in the same way)
+    if diffEmpty != (diffM o a b).isEmpty || implEq != equals o a b then "fail " ++ why ++ " (and the model of the unchanged code answers differently)"
+    else if keyTwin o (subterms a ++ subterms b) then "kf KF-C01-keytwin " ++ why
     else if identPerm o (subterms a ++ subterms b) then "kf KF-C01-identperm " ++ why
     -- KF-C05-precision is "Equal under the precision, yet a non-empty diff"; the opposite deviation is not in it
     else if hasPrecisionPair o a b && implEq && !diffEmpty then "kf KF-C05-precision " ++ why
@@ -203,6 +215,14 @@ def oracleC08 (c : Json) (d : Diff) (impl : Outcome Json) : String :=
     let hnodes := hashedNodes c ++ d.flatMap (fun h => (h.remove ++ h.add) ++ (h.remove ++ h.add).flatMap hashedNodes)
     let ks : List String := (d.flatMap (fun h => h.path.flatMap (fun e => match e with
       | .setKeys po => po.map (·.1) | _ => []))).eraseDups
+    -- a deviation from the reference is an instance of a KNOWN finding only when the model of the unchanged code
+    -- (patchAll true) deviates in the same way: an implementation that differs from that model as well is judged
+    -- by the reference alone (a seeded change that swapped the two passes of the keyed lookup hid behind the class)
+    let asModelled : Bool := match impl, patchAll true c d with
+      | .ok r, .ok r' => specEq (untag r) (untag r')
+      | .err, .err => true
+      | _, _ => false
+    if !asModelled then res else
     if !ks.isEmpty && keyTwin [.set, .setKeys ks] nodes then "kf KF-C01-keytwin " ++ res else
     match patchAll true c d, patchAll false c d with
     | .ok _, .err => "kf KF-C08-swallow " ++ res
